@@ -2,14 +2,13 @@
 import hashlib, json, os, re, subprocess, time
 import vlib, runscen
 
-THEOREMS = [("Properties.C12", "C12_holds")]
+THEOREMS = [("Properties.C12", "C12_holds"), ("Properties.C12", "C12_invocations_holds"), ("AsFound.C12", "C12_as_found_refuted")]
 CORRESPONDENCE = "monorail run histories (pointer file, run/<id> directories, result show, log show [--id]) == Model.Tracking.history"
 LEVEL_NOTE = ("Coq theorem C12_holds (every max_retained_runs >= 1, every history length): after the completed runs r1..rk the pointer addresses slot ((k-1) mod M)+1, "
               "that slot holds exactly rk's log files and result (wipe-then-create), each of the last min(k,M) runs is intact in its slot, and no slot outside 1..M exists. "
               "Tied to src/app/run.rs / tracking.rs / result.rs / log.rs by real run histories of 3M+2 runs with different commands, targets and outcomes per run: after "
               "every run the on-disk state (pointer, every slot's decoded files) is compared with the extracted model and result show / log show [--id N] are checked against it.")
 TRUSTED = ["Coq 8.16.1 kernel; no axioms", "extraction + vmodel; Harness/Glue.v check_tracking", "zstd decoding of stored files by the zstd crate in the harness",
-           "scope: invocations that reach execution (a run rejected after slot set-up wipes the next slot without advancing the pointer; outside 'sequence of runs')",
            "modelled, not verified: the Rust source"]
 RULE = ("M in {1,2,3,5} and two-digit M (10; thorough 10,11,12); 3M+2 runs per history, each with a random non-empty subset of 3 commands, explicit targets or all targets, sometimes a failing or undefined command, an aborted invocation in between (20%), or another (quick) `run` attempted while the run executes; "
         "non-trivial = history step at which some slot has been reused (run number > M) or a failure occurred; distinct by (M, step, invocation)")
@@ -22,12 +21,69 @@ def intern(table, key):
 
 WIDE = {"targets": [{"path": "w/t%03d" % i} for i in range(330)]}     # one run over all of them stores a result record of ~17 KB (compressed)
 
+def observed(ids, slots, ptr, M):
+    obs_slots = []
+    for i in range(M + 3):
+        if i in slots:
+            sl = slots[i]
+            ls = sorted(intern(ids, ("log", p, hashlib.sha1(d or b"").hexdigest())) for p, d in sl["logs"].items())
+            res = [] if sl["result"] is None else [intern(ids, ("result", json.dumps(runscen.strip_result(sl["result"]), sort_keys=True)))]
+            obs_slots.append([ls, res])
+        else:
+            obs_slots.append([])
+    return [[] if ptr is None else [0] if ptr == "corrupt" else [1, ptr], obs_slots]
+
+def retained_shown(rr, slots, run_nos, n, M):
+    """log show --id N for every retained run (the last min(n, M) completed ones) and plain log show for the latest"""
+    why = None
+    for back in range(0, min(n, M)):
+        m = n - back; sid = (m - 1) % M + 1; m_no = run_nos[m - 1]
+        rcl, _, _, rawl = vlib.monorail(rr.repo, "log", "show", "--id", str(sid), "--stdout", "--stderr")
+        nums = set(int(x) for x in re.findall(rb"^run=(\d+) ", rawl.stdout, flags=re.M))
+        want_nonempty = any(d for d in slots.get(sid, {"logs": {}})["logs"].values())
+        if rcl != 0 or (nums - {m_no}) or (want_nonempty and m_no not in nums):
+            why = {"id": sid, "run": m, "marker": m_no, "rc": rcl, "saw_markers": sorted(nums)}
+    if n >= 1:
+        rcl, _, _, rawl = vlib.monorail(rr.repo, "log", "show", "--stdout", "--stderr")
+        nums = set(int(x) for x in re.findall(rb"^run=(\d+) ", rawl.stdout, flags=re.M))
+        if rcl != 0 or (nums - {run_nos[n - 1]}): why = {"latest": True, "rc": rcl, "saw_markers": sorted(nums)}
+    return why
+
+REJECTED = {"unknown_target": ["-c", "build", "-t", "no/such/target"], "unknown_sequence": ["-s", "nosuchsequence"],
+            "args_with_two_commands": ["-c", "build", "test", "-t", "tools", "--args", "x"], "invalid_argmap": ["-c", "build", "-t", "tools", "--argmaps", "broken"],
+            # command names that would leave the run slot or nest inside it (the name is the log directory's name)
+            "command_name_leaves_slot": ["-c", "../7", "-t", "tools"], "command_name_into_other_slot": ["-c", "build", "../1/build", "-t", "tools"],
+            "command_name_with_slash": ["-c", "x/y", "-t", "tools"]}
+
+def rejected_invocation(ctx, rng, rr, ids, recs, run_nos, M, last_doc):
+    """An invocation that monorail rejects (exit 2, nothing executed) is not a run: every retained run stays exactly as it was."""
+    kind = rng.choice(sorted(REJECTED))
+    os.makedirs(os.path.join(rr.repo, "tools", "monorail", "argmap"), exist_ok=True)
+    open(os.path.join(rr.repo, "tools", "monorail", "argmap", "broken.json"), "w").write("{ this is not JSON")
+    no = rr.run_no
+    rc, out, err, raw = rr.run(*REJECTED[kind])
+    started = rr.traces()
+    rr.run_no = no
+    slots = rr.slots(); ptr = rr.pointer()
+    v = ctx.model.call("tracking", M, recs, observed(ids, slots, ptr, M))
+    n = len(recs)
+    why = retained_shown(rr, slots, run_nos, n, M)
+    rc2, shown, err2, _ = vlib.monorail(rr.repo, "result", "show")
+    ok_show = (rc2 == 0 and runscen.strip_result(shown) == runscen.strip_result(last_doc)) if last_doc is not None else rc2 != 0
+    ok = rc not in (0, 1) and out is None and not started and bool(v[3]) and why is None and ok_show
+    ctx.count("rejected_" + kind)
+    ctx.record({"M": M, "step": n, "rejected_invocation": kind, "args": REJECTED[kind]}, True, bool(v[2]), ok, n >= 1,
+               sample={"M": M, "completed_runs": n, "rejected": kind, "rc": rc, "pointer": ptr} if n >= 1 else None,
+               detail={"what": "a rejected invocation must leave every retained run as it was", "rc": rc, "err": err, "model_state_agrees": bool(v[2]), "spec": bool(v[3]),
+                       "log_show": why, "ok_show": ok_show, "started": len(started)})
+
 def history(ctx, rng, M, n_runs, CFG=CFG, CMDS=CMDS, wide=False):
     kinds = {} if wide else {("lint", "tools"): "undef", ("test", "tools"): "noexec"}
     rr = runscen.RunRepo(ctx, CFG, kinds=kinds, M=M, commands=CMDS)
     ids = {}
     recs = []
     run_nos = []
+    last_doc = None
     try:
         for n in range(1, n_runs + 1):
             cmds = rng.sample(CMDS, rng.randint(1, len(CMDS)))
@@ -44,6 +100,8 @@ def history(ctx, rng, M, n_runs, CFG=CFG, CMDS=CMDS, wide=False):
                 args = ["-c"] + cmds; targets = None
                 vlib.monorail(rr.repo, "checkpoint", "update", "--pending"); ctx.count("empty_guided_run")
             rr.script = {"*": {}}
+            if (not wide) and rng.random() < 0.25:
+                rr.write_script(); rejected_invocation(ctx, rng, rr, ids, recs, run_nos, M, last_doc)
             if rng.random() < 0.3:
                 rr.script["%s|%s" % (rng.choice(cmds), rng.choice([t["path"] for t in CFG["targets"]]))] = {"exit": rng.randint(1, 255)}
             rr.write_script()
@@ -90,6 +148,7 @@ def history(ctx, rng, M, n_runs, CFG=CFG, CMDS=CMDS, wide=False):
                 rc, out, err, raw = rr.run(*args)
             if empty_guided: vlib.monorail(rr.repo, "checkpoint", "delete")
             case = {"M": M, "step": n, "args": args, "script": rr.script, "wide": wide, "empty_guided": empty_guided}
+            if out is not None: last_doc = out
             if out is None:
                 ctx.record(case, True, False, False, False, detail={"what": "run produced no result document", "rc": rc, "err": err})
                 return
@@ -111,33 +170,13 @@ def history(ctx, rng, M, n_runs, CFG=CFG, CMDS=CMDS, wide=False):
             # the record this run left, as model input
             logs = sorted(intern(ids, ("log", p, hashlib.sha1(d or b"").hexdigest())) for p, d in cur["logs"].items())
             recs.append([logs, intern(ids, ("result", json.dumps(runscen.strip_result(out), sort_keys=True)))])
-            obs_slots = []
-            for i in range(M + 3):
-                if i in slots:
-                    sl = slots[i]
-                    ls = sorted(intern(ids, ("log", p, hashlib.sha1(d or b"").hexdigest())) for p, d in sl["logs"].items())
-                    res = [] if sl["result"] is None else [intern(ids, ("result", json.dumps(runscen.strip_result(sl["result"]), sort_keys=True)))]
-                    obs_slots.append([ls, res])
-                else:
-                    obs_slots.append([])
+            obs = observed(ids, slots, ptr, M)
             extra_dirs = [k for k in slots if not (isinstance(k, int) and k < M + 3)]
-            obs = [[] if ptr is None else [0] if ptr == "corrupt" else [1, ptr], obs_slots]
             v = ctx.model.call("tracking", M, recs, obs)
             agree, spec = bool(v[2]), bool(v[3])
             # log show --id N for every retained run, and for one that is gone
-            ok_logs = True; why = None
             run_nos.append(rr.run_no)
-            for back in range(0, min(n, M)):
-                m = n - back; sid = (m - 1) % M + 1; m_no = run_nos[m - 1]
-                rcl, _, _, rawl = vlib.monorail(rr.repo, "log", "show", "--id", str(sid), "--stdout", "--stderr")
-                text = rawl.stdout
-                nums = set(int(x) for x in re.findall(rb"^run=(\d+) ", text, flags=re.M))
-                want_nonempty = any(d for d in slots.get(sid, {"logs": {}})["logs"].values())
-                if rcl != 0 or (nums - {m_no}) or (want_nonempty and m_no not in nums):
-                    ok_logs = False; why = {"id": sid, "run": m, "marker": m_no, "rc": rcl, "saw_markers": sorted(nums)}
-            rcl, _, _, rawl = vlib.monorail(rr.repo, "log", "show", "--stdout", "--stderr")
-            nums = set(int(x) for x in re.findall(rb"^run=(\d+) ", rawl.stdout, flags=re.M))
-            if rcl != 0 or (nums - {rr.run_no}): ok_logs = False; why = {"latest": True, "rc": rcl, "saw_markers": sorted(nums)}
+            why = retained_shown(rr, slots, run_nos, n, M); ok_logs = why is None
             ok = ok_show and ok_slot and ok_logs and not extra_dirs and spec
             nontriv = n > M or bool(out.get("failed"))
             ctx.count("M_%d" % M); ctx.count("failed_run" if out.get("failed") else "ok_run"); ctx.count("explicit_targets" if targets else "all_targets")
